@@ -116,6 +116,17 @@ Theorem c07_nonce_advances_partial :
 Proof. exact nonce_advances. Qed.
 Print Assumptions c07_nonce_advances_partial.
 
+(** Histories: any sequence of transactions applied one after the other on the same overlay (as
+    the transaction loop of a block does), the hypotheses required of each transaction in the
+    state it meets. *)
+Theorem c07_sequence_conserved_partial :
+  forall R clean run U e (s : state R) ms,
+    NoDup U -> In (gas_receiver e) U ->
+    chain_id e <> EIP155_CHAINID_MAINNET -> height e <> REFUND_HEIGHT ->
+    steps_ok R clean run U e s ms -> total U (apply_all clean run e s ms) = total U s.
+Proof. exact sequence_conserved. Qed.
+Print Assumptions c07_sequence_conserved_partial.
+
 (** No hypothesis about the interpreter is needed for the rejection clause: full strength. *)
 Theorem c07_nonce_mismatch_rejected :
   forall R clean run e (s : state R) m,
